@@ -637,6 +637,8 @@ impl Scenario {
             let saved = std::mem::replace(&mut self.mode, Mode::U(parent.next_unsealed()));
             self.collect_vm_oracles(&order, &ph);
             self.mode = saved;
+            let nu = parent.next_unsealed();
+            self.collect_melpow(&nu, &order);
         }
         let res = catch_unwind(AssertUnwindSafe(|| parent.apply_block(&blk)));
         let code = match res {
@@ -1047,6 +1049,18 @@ pub fn run_scenario(name: &str, r: &mut Rng, nblocks: usize) -> Scenario {
     let mult = *r.pick(&[1_000_000u128, 1000, 65536, 200, 130, 1 << 40, 256]);
     let fee_pool = *r.pick(&[0u128, 1 << 20, 6_553_600_000_000, 1 << 64]);
     let mut sc = Scenario::new(name, r, net, mult, fee_pool);
+    // on the networks with height-dependent rules, half of the histories start just below a height at which a rule changes
+    // (TIP activations, the legacy staking / deposit rules, staking epochs, the subsidy halving, the inflator table)
+    if matches!(net, NetID::Testnet | NetID::Mainnet) && r.chance(1, 2) {
+        let b = *r.pick(&[500u64, 42_700, 180_000, 200_000, 400_000, 500_000, 830_000, 900_000, 950_000, 978_392, 1_048_000, 1_950_000, 3_000_000]);
+        let h = b - r.range(1, 3);
+        sc.jump_to_height(h);
+        sc.bump("history_starts_below_a_rule_height");
+    } else if r.chance(1, 8) {
+        let h = STAKE_EPOCH * r.range(1, 3) - r.range(1, 3);
+        sc.jump_to_height(h);
+        sc.bump("history_starts_below_an_epoch_boundary");
+    }
     for _b in 0..nblocks {
         let via_block = r.chance(1, 4) && matches!(sc.mode, Mode::S(_));
         if via_block {
